@@ -6,6 +6,7 @@ import (
 	"fmt"
 	"maps"
 	"regexp"
+	"slices"
 	"strings"
 
 	"github.com/dpb587/cursorio-go/cursorio"
@@ -1443,7 +1444,18 @@ func (v *Decoder) walkNode(ectx evaluationContext, n *html.Node) error {
 	}
 
 	{ // Processing, Step 14
-		for listPredicate, listItems := range listMapping {
+		// iterate in a defined order (listMapping is a map): the same document yields the same statement sequence
+		listPredicates := make([]rdf.IRI, 0, len(listMapping))
+
+		for listPredicate := range listMapping {
+			listPredicates = append(listPredicates, listPredicate)
+		}
+
+		slices.Sort(listPredicates)
+
+		for _, listPredicate := range listPredicates {
+			listItems := listMapping[listPredicate]
+
 			if ectx.ListMapping[listPredicate] == listItems {
 				continue
 			}
